@@ -158,9 +158,6 @@ impl Check for C11Check {
             Tier::Thorough => 12_000,
         }
     }
-    fn watchdog_s(&self, _tier: Tier) -> u64 {
-        300
-    }
     fn generate(&self, _seed: u64, index: u64, _tier: Tier) -> Value {
         let mode = if index % 2 == 1 { "relchk" } else { "release" };
         let i = index / 2;
